@@ -237,6 +237,7 @@ def expected (blk : String → Nat → Nat → Nat) (st : Strm) (ak : String) (r
   else if st.crnInit then getDrawInit blk st.size (joinKey st.key st.time ak st.seed) req
   else getDraw blk st.size st.pos (joinKey st.key st.time ak st.seed) req
 
+set_option maxHeartbeats 1000000 in
 /-- `RandomnessStream.get_draw(index, additional_key)`: the block is identified by the seed string `_key` builds –
 decision point, clock, additional key, seed and nothing else – its size is the index map's, an ordinary stream reads it
 at the requested simulants' own positions in request order, a CRN-initialising stream reads its first `len(index)`
@@ -247,36 +248,29 @@ theorem getDraw_refines (blk : String → Nat → Nat → Nat) (st : Strm) (ak :
   rw [exc_func]
   simp only [Gen.Src.streamGetDraw]
   rcases st with ⟨key, time, seed, size, pos, crnInit⟩
+  -- every case distinction the function can make is decided FIRST; the statements are then run one after the other,
+  -- however many there are (so inlining a local or returning early does not change the proof)
   by_cases hreq : req = []
   · subst hreq
-    pystepE [sworld, sworldWith, sGetAttr, sGlobal, sPrim]
+    repeat pystepE [sworld, sworldWith, sGetAttr, sGlobal, sPrim, sSub, streamKey_refines, mkSeries]
     simp [expected, Except.toOption]
   · have hne : req.isEmpty = false := by cases req <;> simp_all
-    pystepE [sworld, sworldWith, sGetAttr, sGlobal, sPrim, hne]
-    pystepE [sworld, sworldWith, sGetAttr, sGlobal, sPrim, streamKey_refines]
-    pystepE [sworld, sworldWith, sGetAttr, sGlobal, sPrim]
-    pystepE [sworld, sworldWith, sGetAttr, sGlobal, sPrim]
-    pystepE [sworld, sworldWith, sGetAttr, sGlobal, sPrim]
     cases crnInit
-    · pystepE [sworld, sworldWith, sGetAttr, sGlobal, sPrim, sSub]
-      cases hm : List.mapM pos req with
-      | none => simp [hm, expected, hne, getDraw_eq, Except.toOption]
+    · cases hm : List.mapM pos req with
+      | none =>
+        repeat pystepE [sworld, sworldWith, sGetAttr, sGlobal, sPrim, sSub, streamKey_refines, mkSeries, hne, hm]
+        simp [expected, hne, getDraw_eq, hm, Except.toOption]
       | some ps =>
         have hl := mapM_length pos req ps hm
-        simp only [hm, exc_bind_ok, exc_pure, sSub, sPrim, mkSeries, List.length_map, hl, ↓reduceIte]
-        try dsimp only
-        pystepE [sworld, sworldWith, sGetAttr, sGlobal, sPrim, sSub]
+        repeat pystepE [sworld, sworldWith, sGetAttr, sGlobal, sPrim, sSub, streamKey_refines, mkSeries, hne, hm, hl]
         simp [expected, hne, getDraw_eq, hm, Except.toOption]
-    · pystepE [sworld, sworldWith, sGetAttr, sGlobal, sPrim, sSub]
-      by_cases hle : req.length ≤ size
+    · by_cases hle : req.length ≤ size
       · have hmin : min req.length size = req.length := Nat.min_eq_left hle
-        simp only [mkSeries, List.length_map, List.length_range, hmin, ↓reduceIte, exc_bind_ok, exc_pure]
-        try dsimp only
-        pystepE [sworld, sworldWith, sGetAttr, sGlobal, sPrim, sSub]
+        repeat pystepE [sworld, sworldWith, sGetAttr, sGlobal, sPrim, sSub, streamKey_refines, mkSeries, hne, hmin]
         simp [expected, hne, getDrawInit, hle, Except.toOption, zip_range_plain]
       · have hmin : min req.length size = size := Nat.min_eq_right (by omega)
         have hne2 : ¬ size = req.length := by omega
-        simp only [mkSeries, List.length_map, List.length_range, hmin, hne2, ↓reduceIte, exc_bind_error, exc_throw]
+        repeat pystepE [sworld, sworldWith, sGetAttr, sGlobal, sPrim, sSub, streamKey_refines, mkSeries, hne, hmin, hne2]
         simp [expected, hne, getDrawInit, hle, Except.toOption]
 
 /-- non-vacuity: three simulants on an ordinary stream with a toy block; simulant 7 sits at position 2 -/
